@@ -40,7 +40,7 @@ import (
 //vf:unwind 24
 //vf:ticks quick=0 thorough=1
 //vf:noyield atomic
-//vf:bound threads stream || teeStream || harness (event, Leave, event, shutdown); ticker fires at any decision; 1..2 nodes recorded before (fixed names), fixed clocks (not the subject); compaction never | on the first append only (thorough: | on every append); rejoin-after-leave on or off
+//vf:bound threads stream || teeStream || harness (event, Leave, event, shutdown); ticker fires at any decision; 1..2 nodes recorded before (fixed names), fixed clocks (not the subject); compaction never | on the first append only (thorough: | on every append), working or failing at its first step every time; rejoin-after-leave on or off
 //vf:outside events still queued when the leave is signalled are covered (they race with the leave); events lost because the 2048-slot queue overflows are not
 //vf:nonative
 func VfC13_Leave() {
@@ -73,6 +73,10 @@ func VfC13_Leave() {
 	shutdown := make(chan struct{})
 	_, s, err := NewSnapshotter(vfSnapPath, minCompact, rejoin, nil, &clock, nil, shutdown)
 	vfAssert("C13.open", err == nil && s != nil)
+	if minCompact != 1<<30 && vfBool("compactionBroken") {
+		// from now on no compaction can create its temporary file: the leave must be recorded all the same
+		vfFailTruncOpens = true
+	}
 	if vfBool("eventBefore") {
 		s.streamCh <- MemberEvent{Type: EventMemberJoin, Members: []Member{{Name: "c", Addr: vfAddrs[1], Port: 7946}}}
 	}
